@@ -281,7 +281,7 @@ func commentCarve(fs *mon.Findings, f *syntax.File, o POpts) string {
 			for _, c := range comments {
 				if c.Hash.After(x.Left) && x.Right.After(c.Hash) {
 					for _, c2 := range comments {
-						if c2.Hash.After(x.Right) && c2.Hash.Line() == x.Right.Line() {
+						if c2.Hash.After(x.Right) && (c2.Hash.Line() == x.Right.Line() || inHeredocBody(stack)) {
 							hit("C05-comment-inside-a-substitution-and-after-its-word")
 						}
 					}
@@ -334,4 +334,19 @@ func commentCarve(fs *mon.Findings, f *syntax.File, o POpts) string {
 		return true
 	})
 	return id
+}
+
+// inHeredocBody reports whether the innermost enclosing redirection of the node
+// stack holds the node in its here-document body.
+func inHeredocBody(stack []syntax.Node) bool {
+	for i := len(stack) - 1; i >= 0; i-- {
+		if r, ok := stack[i].(*syntax.Redirect); ok && r.Hdoc != nil {
+			for j := i + 1; j < len(stack); j++ {
+				if stack[j] == syntax.Node(r.Hdoc) {
+					return true
+				}
+			}
+		}
+	}
+	return false
 }
